@@ -1,0 +1,28 @@
+//go:build verif
+
+// Contracts for the deductive verifier in /verif (govc). This file contains no code: with the
+// build tag off it is not part of the package, with it on it adds nothing to the build.
+package antedl
+
+//@ import sdk "github.com/cosmos/cosmos-sdk/types"
+//@ import evmtypes "github.com/EscanBE/evermint/v12/x/evm/types"
+//@ import sdkvesting "github.com/cosmos/cosmos-sdk/x/auth/vesting/types"
+
+// The default list of message types that may neither be nested in MsgExec nor be granted: the Ethereum message and the three
+// vesting-account-creation messages (msgTypeUrl: prelude/43_ante_authz.spec; app.go feeds this list to the 992c decorator).
+//@ func (options HandlerOptions) WithDefaultDisabledNestedMsgs() HandlerOptions
+//@   modifies nothing
+//@   ensures[C07.default_disabled_list,C16.default_disabled_list] len(result.DisabledNestedMsgs) == 4 && result.DisabledNestedMsgs[0] == msgTypeUrl(type(*evmtypes.MsgEthereumTx)) && result.DisabledNestedMsgs[1] == msgTypeUrl(type(*sdkvesting.MsgCreateVestingAccount)) && result.DisabledNestedMsgs[2] == msgTypeUrl(type(*sdkvesting.MsgCreatePeriodicVestingAccount)) && result.DisabledNestedMsgs[3] == msgTypeUrl(type(*sdkvesting.MsgCreatePermanentLockedAccount))
+//@   panics never
+
+//@ import duallane "github.com/EscanBE/evermint/v12/app/antedl/duallane"
+//@ import evmlane "github.com/EscanBE/evermint/v12/app/antedl/evmlane"
+//@ import cosmoslane "github.com/EscanBE/evermint/v12/app/antedl/cosmoslane"
+
+// The composed ante handler: ONE call, to the chain built by sdk.ChainAnteDecorators from exactly these 20 decorators in exactly
+// this order (the order the composition lemma of DESIGN.md §7 C07 needs: 01 first; 03 before 03e/04/05; 07 before 11; 11 before
+// 12; 12 before 991e..993e; the three Cosmos-only decorators present), with the caller's ctx / tx / simulate, returning its result.
+//@ func NewAnteHandler__1(ctx sdk.Context, tx sdk.Tx, sim bool) (newCtx sdk.Context, err error)
+//@   modifies everything
+//@   ensures[C07.chain_is_called] hcN[0] == old(hcN[0]) + 1 && hcKind[old(hcN[0])] == 0 && hcCtx[old(hcN[0])] == ctx && hcTxTag[old(hcN[0])] == typeof(tx) && hcTx[old(hcN[0])] == payload(tx) && hcSim[old(hcN[0])] == sim && newCtx == hcResCtx[old(hcN[0])] && typeof(err) == hcResErrTag[old(hcN[0])] && payload(err) == hcResErr[old(hcN[0])]
+//@   ensures[C07.chain_order] chainLen(hcCallee[old(hcN[0])]) == 20 && chainTag(hcCallee[old(hcN[0])], 0) == type(duallane.DLSetupContextDecorator) && chainTag(hcCallee[old(hcN[0])], 1) == type(duallane.DLExtensionOptionsDecorator) && chainTag(hcCallee[old(hcN[0])], 2) == type(duallane.DLValidateBasicDecorator) && chainTag(hcCallee[old(hcN[0])], 3) == type(evmlane.ELValidateBasicEoaDecorator) && chainTag(hcCallee[old(hcN[0])], 4) == type(duallane.DLTxTimeoutHeightDecorator) && chainTag(hcCallee[old(hcN[0])], 5) == type(duallane.DLValidateMemoDecorator) && chainTag(hcCallee[old(hcN[0])], 6) == type(duallane.DLConsumeTxSizeGasDecorator) && chainTag(hcCallee[old(hcN[0])], 7) == type(duallane.DLDeductFeeDecorator) && chainTag(hcCallee[old(hcN[0])], 8) == type(duallane.DLSetPubKeyDecorator) && chainTag(hcCallee[old(hcN[0])], 9) == type(duallane.DLValidateSigCountDecorator) && chainTag(hcCallee[old(hcN[0])], 10) == type(duallane.DLSigGasConsumeDecorator) && chainTag(hcCallee[old(hcN[0])], 11) == type(duallane.DLSigVerificationDecorator) && chainTag(hcCallee[old(hcN[0])], 12) == type(duallane.DLIncrementSequenceDecorator) && chainTag(hcCallee[old(hcN[0])], 13) == type(duallane.DLRedundantRelayDecorator) && chainTag(hcCallee[old(hcN[0])], 14) == type(evmlane.ELSetupExecutionDecorator) && chainTag(hcCallee[old(hcN[0])], 15) == type(evmlane.ELEmitEventDecorator) && chainTag(hcCallee[old(hcN[0])], 16) == type(evmlane.ELExecWithoutErrorDecorator) && chainTag(hcCallee[old(hcN[0])], 17) == type(cosmoslane.CLRejectEthereumMsgsDecorator) && chainTag(hcCallee[old(hcN[0])], 18) == type(cosmoslane.CLRejectAuthzMsgsDecorator) && chainTag(hcCallee[old(hcN[0])], 19) == type(cosmoslane.CLVestingMessagesAuthorizationDecorator)
